@@ -272,6 +272,8 @@ pub mod message;
 mod rustls_crypto;
 mod time;
 pub mod transport;
+#[cfg(lettre_verif)]
+pub mod verif_hooks;
 
 use std::error::Error as StdError;
 
